@@ -781,6 +781,10 @@ def run(ctx):
                     key_text(info["key"], info["default"] if info["has_default"] else Q.ABS), json.dumps(info["filter"]), info["corpus"], real_text(real), real_text(want), lab, devs[lab]),
                     dict(info, check="groupby", want=want))
 
+    # ---- 4b. the command line front end: simplified spelling = its JSON reading (spec/query/QueryCli.tla) ------------------
+    from .. import querycli
+    querycli.phase(ctx, qflags, "c07", procs)
+
     # ---- 5. binding self-tests ---------------------------------------------------------------------------------------
     st = {}
     # (a) a corrupted spelling descriptor (doc key spelled as a state point key) must select other jobs somewhere
@@ -812,6 +816,7 @@ def run(ctx):
         badg.append(c)
     bgv = judge_groups(ctx, badg, qflags, gflags, "groupby-selftest")
     st["corrupted_groupby_records_rejected_by_TLC"] = "%d/%d" % (sum(1 for v in bgv if v["explain"] == "unexplained" and not (v["disjoint"] and v["covers"] and v["labelown"])), len(badg))
+    st.update(ctx.cov.get("binding_selftest") or {})
     ctx.cov["binding_selftest"] = st
     if not st["corrupted_spelling_detected"] or st["corrupted_cursor_records_rejected_by_TLC"] != "%d/%d" % (len(bad), len(bad)) or not bad \
             or st["corrupted_groupby_records_rejected_by_TLC"] != "%d/%d" % (len(badg), len(badg)) or not badg:
@@ -823,6 +828,9 @@ def run(ctx):
 def replay(ctx, data):
     jobs = [tuple(j) for j in data.get("corpus", [])]
     check = data.get("check")
+    if check == "cli":
+        from .. import querycli
+        return querycli.replay(ctx, data)
     if check == "parse":
         got = parse_of(data["spelling"])
         print("%s -> %r ; specification: %r" % (Q.spelling_text(data["spelling"]), got, data["want"]))
